@@ -53,7 +53,8 @@ def expected(sc, spec_lists):
 
 def judge(ck, sc, res):
     msgs = [(m["m"], m["k"], sc["size"][i]) for i, m in enumerate(sc["msgs"])]
-    rp = {"msgs": sc["msgs"], "size": sc["size"], "delivered": sc["delivered"], "echoed": sc["echoed"], "observed": res}
+    rp = {"msgs": sc["msgs"], "size": sc["size"], "delivered": sc["delivered"], "echoed": sc["echoed"], "observed": res,
+          "pipelined": sc.get("pipelined", False)}
     if res.get("error"):
         raise lib.Infra("scenario %s: %s" % (sc["id"], res["error"]))
     if res.get("stray"):
@@ -106,8 +107,24 @@ def run(tier, lab):
     for big in (4075, 4076, 4077, 4096, 5000, 20000, 65000):
         msgs = [{"m": "hello", "k": 1, "n": 0}, {"m": "data", "k": 1, "n": 2}]
         scs.append({"id": len(scs), "msgs": msgs, "size": [0, big], "delivered": [[{"k": 1, "n": 2}]], "echoed": [[{"k": 1, "n": 2}]]})
+    # the same behaviours pipelined (data messages back to back, no waiting for the echo): sequences without a chunk that
+    # makes the service close (there the outcome of a race is not fixed by the specification)
+    for s in list(scs):
+        if not any(m["m"] == "quit" for m in s["msgs"]) and sum(1 for m in s["msgs"] if m["m"] == "data") >= 2:
+            scs.append(dict(s, id=len(scs), pipelined=True))
+    # and long pipelined streams: 1..4 connections x up to 20 data messages each, interleaved
+    for nk, per in ((1, 20), (2, 12), (4, 8)):
+        msgs = [{"m": "hello", "k": k, "n": 0} for k in range(1, nk + 1)]
+        order = [k for k in range(1, nk + 1) for _ in range(per)]
+        rng.shuffle(order)
+        gens = [[] for _ in range(nk)]
+        for n, k in enumerate(order, 1):          # chunk numbers are unique within a scenario
+            msgs.append({"m": "data", "k": k, "n": n})
+            gens[k - 1].append({"k": k, "n": n})
+        scs.append({"id": len(scs), "msgs": msgs, "size": [0] * nk + [rng.choice([700, 1500, 3000, 4000]) for _ in order],
+                    "delivered": gens, "echoed": gens, "pipelined": True})
     port = free_port()
-    slim = [{"id": s["id"], "msgs": s["msgs"], "size": s["size"]} for s in scs]
+    slim = [{"id": s["id"], "msgs": s["msgs"], "size": s["size"], "pipelined": s.get("pipelined", False)} for s in scs]
     results = {r["id"]: r for r in lib.run_sharded(lab, "c16", slim, shards=1, extra_args=["-port", str(port), "-par", "12"], timeout=2400)}
     for sc in scs:
         res = results.get(sc["id"])
@@ -122,7 +139,8 @@ def run(tier, lab):
     ck.sample({"msgs": scs[7]["msgs"], "size": scs[7]["size"], "spec_delivered": scs[7]["delivered"]})
     ck.assumptions += ["the service behind every virtual connection is an echo service registered by the harness (a chunk starting with 'Q' "
                        "makes it close its side); the agent side is played with libdisco's client and honeytrap's exported message types",
-                       "messages are sent lock-step (the echo of a chunk is awaited up to 400 ms before the next message)"]
+                       "messages are sent lock-step (the echo of a chunk is awaited up to 400 ms before the next message) and, for "
+                       "sequences in which the service never closes first, also pipelined (back to back)"]
     return ck.finish()
 
 
@@ -133,8 +151,9 @@ def replay(lab, path):
     if "codec" in rp:
         codec_part(ck, lab)
     else:
-        sc = {"id": 0, "msgs": rp["msgs"], "size": rp["size"], "delivered": rp["delivered"], "echoed": rp["echoed"]}
-        res = lib.run_sharded(lab, "c16", [{"id": 0, "msgs": sc["msgs"], "size": sc["size"]}], shards=1,
+        sc = {"id": 0, "msgs": rp["msgs"], "size": rp["size"], "delivered": rp["delivered"], "echoed": rp["echoed"],
+              "pipelined": rp.get("pipelined", False)}
+        res = lib.run_sharded(lab, "c16", [{"id": 0, "msgs": sc["msgs"], "size": sc["size"], "pipelined": sc["pipelined"]}], shards=1,
                               extra_args=["-port", str(free_port()), "-par", "1"], timeout=600)[0]
         print(json.dumps(res)[:1500])
         judge(ck, sc, res)
